@@ -1,0 +1,28 @@
+//go:build verif
+
+package engine
+
+import (
+	"github.com/wundergraph/graphql-go-tools/v2/pkg/engine/plan"
+	"github.com/wundergraph/graphql-go-tools/v2/pkg/engine/postprocess"
+	"github.com/wundergraph/graphql-go-tools/v2/pkg/engine/resolve"
+)
+
+// VerifPlannerConfig exposes the planner configuration to the external verification harness.
+func (e *Configuration) VerifPlannerConfig() *plan.Configuration { return &e.plannerConfig }
+
+// VerifAppendPostProcessorOptions appends post-processor options used for plans created after the call.
+func (e *ExecutionEngine) VerifAppendPostProcessorOptions(opts ...postprocess.ProcessorOption) {
+	e.postProcessorOptions = append(e.postProcessorOptions, opts...)
+}
+
+// VerifPostProcessorOptions returns the post-processor options the engine plans with.
+func (e *ExecutionEngine) VerifPostProcessorOptions() []postprocess.ProcessorOption {
+	return e.postProcessorOptions
+}
+
+// VerifWithResolveContext lets the harness adjust the per-request resolve.Context
+// (response cache, subgraph headers builder, execution options).
+func VerifWithResolveContext(fn func(*resolve.Context)) ExecutionOptions {
+	return func(ctx *internalExecutionContext) { fn(ctx.resolveContext) }
+}
